@@ -121,10 +121,10 @@ class JsonObject : public detail::VariantOperators<JsonObject> {
   // https://arduinojson.org/v7/api/jsonobject/subscript/
   template <typename TVariant>
   detail::enable_if_t<detail::IsVariant<TVariant>::value,
-                      detail::MemberProxy<JsonObject, const char*>>
+                      detail::MemberProxy<JsonObject, JsonString>>
   operator[](const TVariant& key) const {
     if (key.template is<const char*>())
-      return {*this, key.template as<const char*>()};
+      return {*this, key.template as<JsonString>()};
     else
       return {*this, nullptr};
   }
@@ -150,7 +150,7 @@ class JsonObject : public detail::VariantOperators<JsonObject> {
   detail::enable_if_t<detail::IsVariant<TVariant>::value> remove(
       const TVariant& key) const {
     if (key.template is<const char*>())
-      remove(key.template as<const char*>());
+      remove(key.template as<JsonString>());
   }
 
   // Removes the member with the specified key.
@@ -187,7 +187,7 @@ class JsonObject : public detail::VariantOperators<JsonObject> {
   ARDUINOJSON_DEPRECATED("use obj[key].is<T>() instead")
   detail::enable_if_t<detail::IsVariant<TVariant>::value, bool> containsKey(
       const TVariant& key) const {
-    return containsKey(key.template as<const char*>());
+    return containsKey(key.template as<JsonString>());
   }
 
   // DEPRECATED: use obj[key].to<JsonArray>() instead
